@@ -76,7 +76,7 @@ func init() {
 	}
 	for _, p := range []*propDef{
 		{ID: "C09", Engine: "crash", Level: "fault_enumeration", Rule: crashRule("the crash left a plan durably Running")},
-		{ID: "C10", Engine: "crash", Level: "fault_enumeration", Rule: crashRule("the crash left a plan durably Running")},
+		{ID: "C10", Engine: "crash", Level: "fault_enumeration", Mode: "with-realkill", Rule: crashRule("the crash left a plan durably Running") + "; cross-validation pass (realkill, not part of the verdict): constant-script plans run by a real child process on a real file-backed SQLite store with real millisecond sleeps, SIGKILLed by itself right before a sampled durable write, then recovered by a fresh process on the same directory; the recovered plan is compared with the consistency oracle and the reference model and disagreements are reported as FIDELITY-WARNING lines and in coverage.realkill_fidelity_notes (its schedule is not the simulator's, so it cannot be replayed and never yields a VIOLATION)"},
 		{ID: "C11", Engine: "crash", Level: "exploration", Rule: "one batch index = one generated store history: 2-5 small plans (never started, quick, failing, long-running) submitted and started at staggered instants by the real engine; it is run uninterrupted once, then re-run with a process death at a sampled durable write and a restart after a delay chosen around the configured maximum age (exactly at, 1 ns before / after the boundary, half, double, fixed delays), with MaxLastUpdate in {1 s, 10 s, default} and recovery on/off; a run is non-trivial if the store at the restart holds plans in >= 2 different statuses or a Running plan; distinct = distinct trace signatures among non-trivial runs"},
 	} {
 		p.QuickMs, p.ThorMs = 40_000, 600_000
@@ -161,6 +161,7 @@ type workerResult struct {
 	Overruns   int            `json:"overruns"`
 	Hangs      int            `json:"hangs"`
 	Samples    []any          `json:"samples"`
+	Fidelity   []string       `json:"fidelity"`
 	FirstSeed  uint64         `json:"firstSeed"`
 	LastSeed   uint64         `json:"lastSeed"`
 	Extra      map[string]int `json:"extra"`
@@ -351,11 +352,14 @@ func check(id, tier string) int {
 	}
 	wg.Wait()
 
-	if second := map[string]string{"with-kill": "createkill", "with-failstop": "failstop", "with-crash": "crash"}[p.Mode]; second != "" {
+	if second := map[string]string{"with-kill": "createkill", "with-failstop": "failstop", "with-crash": "crash", "with-realkill": "realkill"}[p.Mode]; second != "" {
 		// second pass with another engine
 		wall2 := wall
 		if second == "failstop" || second == "crash" {
 			wall2 = wall / 3
+		}
+		if second == "realkill" {
+			wall2 = wall / 5
 		}
 		kres := make([]*workerResult, nw)
 		var wg2 sync.WaitGroup
@@ -482,6 +486,11 @@ func check(id, tier string) int {
 		fmt.Printf("HARNESS-TROUBLE %s\n", h)
 		exit = 2
 	}
+	for i, h := range total.Fidelity {
+		if i < 10 {
+			fmt.Printf("FIDELITY-WARNING property=%s (real-process cross-validation, not a verdict) %s\n", id, h)
+		}
+	}
 
 	wallS := time.Since(start).Seconds()
 	cov := map[string]any{
@@ -508,6 +517,13 @@ func check(id, tier string) int {
 	}
 	for k, v := range total.Extra {
 		cov[k] = v
+	}
+	if p.Mode == "with-realkill" {
+		notes := total.Fidelity
+		if notes == nil {
+			notes = []string{}
+		}
+		cov["realkill_fidelity_notes"] = notes
 	}
 	unreached := []string{}
 	for _, k := range expectedProbes(id) {
@@ -560,8 +576,12 @@ func componentsOf(engine, mode string) map[string]any {
 		}
 		return map[string]any{"real": real, "stub": stub}
 	}
+	real := []string{"coercion.Workstream", "internal/execute (Start, runPlan, Wait, recovery)", "internal/execute/sm (all states, finalStates, recovery fix-ups)", "sm/actions (retry loop, timeout race, type check)", "workflow (Validate, Defaults), walk, registry, context", "gostdlib statemachine / worker pool / sync.Group / ShardedMap / exponential back-off", "workflow/storage/sqlite on zombiezen+modernc SQLite (in-memory)"}
+	if mode == "with-realkill" {
+		real = append(real, "realkill cross-validation pass: real child processes, real file-backed SQLite, real clock and Go scheduler, real SIGKILL (self-sent before a counted durable write), recovery in a fresh process")
+	}
 	return map[string]any{
-		"real": []string{"coercion.Workstream", "internal/execute (Start, runPlan, Wait, recovery)", "internal/execute/sm (all states, finalStates, recovery fix-ups)", "sm/actions (retry loop, timeout race, type check)", "workflow (Validate, Defaults), walk, registry, context", "gostdlib statemachine / worker pool / sync.Group / ShardedMap / exponential back-off", "workflow/storage/sqlite on zombiezen+modernc SQLite (in-memory)"},
+		"real": real,
 		"stub": []string{"plugins (scripted sim plugins: the environment)", "wall clock (testing/synctest fake clock)", "process death (generation switch: writes of a dead incarnation are dropped)"},
 	}
 }
@@ -624,6 +644,7 @@ func mergeInto(dst, src *workerResult, takeSamples bool) {
 	}
 	dst.Found = append(dst.Found, src.Found...)
 	dst.Harness = append(dst.Harness, src.Harness...)
+	dst.Fidelity = append(dst.Fidelity, src.Fidelity...)
 	if takeSamples && len(dst.Samples) < 3 {
 		dst.Samples = append(dst.Samples, src.Samples...)
 		if len(dst.Samples) > 3 {
